@@ -256,6 +256,116 @@ def h_jwe(ctx):
                    nontrivial=(dim, name if isinstance(name, str) else repr(name), form, how, op, path))
 
 
+# ------------------------------------------------------------------ several recipients: every entry's alg is gated
+OTHER_ENTRIES = [("A192KW", "oct24", None), ("RSA1_5", "rsa", None), ("A128GCMKW", "oct16", None), ("PBES2-HS256+A128KW", "oct16", None),
+                 ("A256KW", "oct32", None), ("A192KW", "oct24", "FOO"), ("A192KW", "oct24", "a128kw"), ("A192KW", "oct24", ""),
+                 ("A192KW", "oct24", "<null>"), ("A192KW", "oct24", 7)]
+
+
+def h_jwe_multi(ctx):
+    """General JSON, two recipient entries: one for an allowed algorithm, the other a genuine entry for the same content key made with
+    an algorithm the caller did not allow (or renamed to an unknown / non-string name)."""
+    from joserfc import jwe
+    from joserfc.jwk import KeySet
+    from .c02 import JTok
+    scen.register_drafts()
+    oalg, okind, rename = ctx.choose("other_entry", OTHER_ENTRIES)
+    name = oalg if rename is None else (None if rename == "<null>" else rename)
+    pos = ctx.choose("position_of_other_entry", [0, 1])
+    form = ctx.choose("allow_list", ["absent", "explicit", "explicit+other"])
+    how = ctx.choose("given_as", ["algorithms", "registry", "registry verify_all_recipients=False", "registry strict_check_header=False"])
+    enc = ctx.choose("enc", ["A128GCM", "A128CBC-HS256"])
+    good = ("A128KW", "oct16")
+    entries = [None, None]
+    entries[pos] = (oalg, okind, "other")
+    entries[1 - pos] = (good[0], good[1], "good")
+    recs, privs = [], []
+    for j, (a, kind, role) in enumerate(entries):
+        jwk = scen.key(kind, j + 1)
+        recs.append({"jwk": jwk if jwk["kty"] == "oct" else rjwk.public_of(jwk), "header": {"alg": a, "kid": f"r{j}"}})
+        privs.append(A.jkey({**jwk, "kid": f"r{j}"}, "dict"))
+    tok = JTok("general", rjwe.encrypt({"enc": enc}, b"secret", recs, form="general", rand=rjwe.Drbg(repr((oalg, pos, enc)).encode())))
+    if rename is not None:
+        tok.recipients[pos]["header"]["alg"] = name
+    L = None if form == "absent" else ([good[0], enc] + ([oalg] if form == "explicit+other" and rename is None else []))
+    if form == "absent" and how != "algorithms":
+        if how == "registry":
+            return Outcome("n/a", [], nontrivial=None)
+    allowed = usable(name, L, JWE_ALG_SUP, JWE_REC, True)
+    kw = {"algorithms": copy.copy(L)} if how == "algorithms" else {"registry": jwe.JWERegistry(
+        algorithms=copy.copy(L), verify_all_recipients="verify_all" not in how, strict_check_header="strict_check" not in how)}
+    r = call(lambda: bytes(jwe.decrypt_json(tok.wire(), KeySet(privs), **kw).plaintext))
+    vs = []
+    what = f"general JSON, entry {pos} names alg={name!r} (made with {oalg}), the other entry A128KW, enc={enc}; allow-list {L!r} given as {how}"
+    cls = "non-string" if not isinstance(name, str) else ("unknown" if name not in JWE_ALG_SUP else name.split("+")[0])
+    if allowed:
+        if not r.ok or r.value != b"secret":
+            vs.append(viol(f"JWE decrypt fails although every recipient entry names an allowed alg [{cls}, {how}]", f"{what}: {r.exc!r}"))
+    elif r.ok:
+        vs.append(viol(f"JWE decrypt succeeds although a recipient entry names an alg the caller did not allow [{cls}, list {form}, {how}]", f"{what}: returned {r.value!r}"))
+    elif isinstance(name, str) and not is_unsupported_error(r.exc):
+        vs.append(viol(f"JWE decrypt: a disallowed well-typed alg name in a recipient entry is not reported as unsupported-algorithm [{cls}, {type(r.exc).__name__}]", f"{what}: {r.exc!r}"))
+    return Outcome(f"multi:{'ok' if r.ok else 'rej'}:{'allowed' if allowed else 'not-allowed'}", vs, nontrivial=(oalg, repr(name), pos, form, how, enc))
+
+
+# ------------------------------------------------------------------ E3: calls sharing a registry, at the same time
+def _thread_menus():
+    from joserfc import jws, jwe
+    k16, k32 = scen.key("oct16"), scen.key("oct32")
+
+    def jtok(alg):
+        return rjwe.encrypt({"alg": alg, "enc": "A128GCM"}, b"secret", [{"jwk": k16}], rand=rjwe.Drbg(alg.encode()))
+
+    def stok(alg):
+        seg = b64.enc(rjws.hdr_json({"alg": alg}).encode())
+        return seg + "." + b64.enc(b"payload") + "." + b64.enc(jws_sign(alg, k32, rjws.signing_input(seg, b"payload", True)))
+    T = {a: jtok(a) for a in ("dir", "A128KW")}
+    S = {a: stok(a) for a in ("HS256", "HS384")}
+    # (name, expected to succeed, run(shared)); the shared registries R allow A128KW + A128GCM, S allows HS256.  Where registry= and
+    # algorithms= contradict each other either reading is admitted (None): such a call is in the menu for what it does to the others
+    jwe_menu = [
+        ("decrypt dir token, registry=R and algorithms=[dir, A128GCM]", None, lambda sh: call(lambda: bytes(jwe.decrypt_compact(T["dir"], sh["k16"], algorithms=["dir", "A128GCM"], registry=sh["R"]).plaintext))),
+        ("decrypt dir token, registry=R", False, lambda sh: call(lambda: bytes(jwe.decrypt_compact(T["dir"], sh["k16"], registry=sh["R"]).plaintext))),
+        ("decrypt A128KW token, registry=R", True, lambda sh: call(lambda: bytes(jwe.decrypt_compact(T["A128KW"], sh["k16"], registry=sh["R"]).plaintext))),
+        ("encrypt dir, registry=R", False, lambda sh: call(jwe.encrypt_compact, {"alg": "dir", "enc": "A128GCM"}, b"secret", sh["k16"], registry=sh["R"])),
+        ("encrypt A128KW JSON, registry=R and algorithms=[dir, A128GCM]", None, lambda sh: call(lambda: jwe.encrypt_json(
+            (lambda o: (o.add_recipient({"alg": "A128KW"}, sh["k16"]), o)[1])(jwe.GeneralJSONEncryption({"enc": "A128GCM"}, b"secret")), None, algorithms=["dir", "A128GCM"], registry=sh["R"]))),
+    ]
+    jws_menu = [
+        ("verify HS384 token, registry=S and algorithms=[HS384]", None, lambda sh: call(lambda: bytes(jws.deserialize_compact(S["HS384"], sh["k32"], algorithms=["HS384"], registry=sh["S"]).payload))),
+        ("verify HS384 token, registry=S", False, lambda sh: call(lambda: bytes(jws.deserialize_compact(S["HS384"], sh["k32"], registry=sh["S"]).payload))),
+        ("sign HS384, registry=S", False, lambda sh: call(jws.serialize_compact, {"alg": "HS384"}, b"payload", sh["k32"], registry=sh["S"])),
+        ("verify HS256 token, registry=S", True, lambda sh: call(lambda: bytes(jws.deserialize_compact(S["HS256"], sh["k32"], registry=sh["S"]).payload))),
+        ("verify HS384 token, default registry", False, lambda sh: call(lambda: bytes(jws.deserialize_compact(S["HS384"], sh["k32"]).payload))),
+        ("verify HS384 token, algorithms=[HS384]", True, lambda sh: call(lambda: bytes(jws.deserialize_compact(S["HS384"], sh["k32"], algorithms=["HS384"]).payload))),
+    ]
+    return {"jwe": jwe_menu, "jws": jws_menu}
+
+
+def h_threads(ctx):
+    from .. import conc
+    from joserfc import jws, jwe
+    fam = ctx.choose("family", ["jwe", "jws"])
+    menu = _thread_menus()[fam]
+    expect = {n: e for n, e, _ in menu}
+
+    def shared():
+        return {"k16": A.jkey(scen.key("oct16"), "dict"), "k32": A.jkey(scen.key("oct32"), "dict"),
+                "R": jwe.JWERegistry(algorithms=["A128KW", "A128GCM"]), "S": jws.JWSRegistry(algorithms=["HS256"])}
+
+    def judge(name, r, sh):
+        if expect[name] is None:
+            return None
+        if r.ok and not expect[name]:
+            return ("a call sharing a registry with a concurrent call succeeds with an algorithm its own allow-list does not hold", f"{name}: returned {str(r.value)[:80]!r}")
+        if not r.ok and expect[name]:
+            return ("a call sharing a registry with a concurrent call fails with an algorithm its own allow-list holds", f"{name}: {r.exc!r}")
+        if not r.ok and not is_unsupported_error(r.exc):
+            return ("a disallowed algorithm is not reported as unsupported-algorithm while another call shares the registry", f"{name}: {r.exc!r}")
+        return None
+    return conc.pairs(ctx, [(n, f) for n, _, f in menu], shared, judge, thorough=config.thorough())
+
+
 # ------------------------------------------------------------------ E2: histories
 class GateModel:
     """Calls with different allow-lists, one after another in one process; each must behave as in isolation."""
@@ -400,5 +510,7 @@ def histories(tier):
 PARTS = [
     Part("jws-allow-lists", h_jws, split_depth=3),
     Part("jwe-allow-lists", h_jwe, split_depth=3),
+    Part("jwe-several-recipients", h_jwe_multi, split_depth=2),
     Part("call-histories", custom=histories, engine="E2"),
+    Part("thread-schedules", h_threads, bound={"quick": 1, "thorough": 2}, split_depth=2, budget={"quick": 200, "thorough": 3000}, engine="E3"),
 ]
